@@ -139,7 +139,7 @@ func runC03(c *eng.Ctx, thorough bool) {
 		nApp := 0
 		for _, ap := range eng.Calls(f, `^append$`) {
 			a := ap.Common().Args
-			if ph, ok := a[0].(*ssa.Phi); !ok || ph.Comment != "paths" {
+			if ph, ok := a[0].(*ssa.Phi); !ok || eng.VarName(ph) != "paths" {
 				continue
 			}
 			for _, rule := range appendedAllocs(a[1]) {
@@ -229,7 +229,7 @@ func c03OpTable(c *eng.Ctx, f *ssa.Function) {
 	for _, b := range f.Blocks {
 		for _, in := range b.Instrs {
 			if p, ok := in.(*ssa.Phi); ok {
-				switch p.Comment {
+				switch eng.VarName(p) {
 				case "operationAllowed":
 					if len(p.Edges) >= 8 {
 						allowedPhi = p
@@ -580,10 +580,10 @@ func c03Comparator(c *eng.Ctx) {
 		v := eng.Expr(st.Val)
 		if a, ok := st.Addr.(*ssa.Alloc); ok {
 			if strings.HasSuffix(v, "[i]") {
-				ni = a.Comment
+				ni = eng.VarName(a)
 			}
 			if strings.HasSuffix(v, "[j]") {
-				nj = a.Comment
+				nj = eng.VarName(a)
 			}
 		}
 	}
